@@ -497,6 +497,9 @@ package websocket
 
 //@ func (*Conn).writeFrame
 //@ tags C02 C10 C05 C06
+//@ input client specB2U(c.client)
+//@ input closeSent specB2U(c.closeSent)
+//@ input p[16] specAt(p, i)
 //@ requires connInv(c) && ctx != nil && !gvcHeld(c.writeFrameMu.ch) && 0 <= opcode && opcode <= 15 && len(p) < 1<<56
 //@ requires [stream] specWriteInv(c) && (len(p) == 0 || ((c.client ==> gvcRegion(c.writeBuf) != gvcRegion(p)) && gvcRegion(c.writeHeaderBuf[:]) != gvcRegion(p)))
 //@ modifies $WRFP
